@@ -595,13 +595,6 @@ fn block(ch: char) -> Vec<u8> {
         _ => vkit::machinery!("unknown block {ch}"),
     }
 }
-fn text_of(name: &str) -> Vec<u8> {
-    let mut v = Vec::new();
-    for ch in name.chars() {
-        v.extend(block(ch));
-    }
-    v
-}
 
 const IDENT: &str = "author A U Thor <author@example.com> 1112911993 +0100\ncommitter C O Mitter <committer@example.com> 1112911993 +0100\n";
 
@@ -1090,7 +1083,9 @@ pub fn run(run: &'static Run) {
     run.cov("deltas_applied_and_cross_checked", DELTAS_SEEN.load(Ordering::Relaxed));
     run.cov("deltas_with_64k_copy", COPY_64K.load(Ordering::Relaxed));
     run.cov("packs_with_chain_ge_2", CHAIN_GE2.load(Ordering::Relaxed));
-    run.require("git produced deltas that were applied", DELTAS_SEEN.load(Ordering::Relaxed) > 100);
-    run.require("a copy command with implicit size 0x10000 was applied", COPY_64K.load(Ordering::Relaxed) > 0);
-    run.require("a delta chain of length >= 2 was resolved", CHAIN_GE2.load(Ordering::Relaxed) > 0);
+    if !run.over_budget() {
+        run.require("git produced deltas that were applied", DELTAS_SEEN.load(Ordering::Relaxed) > 100);
+        run.require("a copy command with implicit size 0x10000 was applied", COPY_64K.load(Ordering::Relaxed) > 0);
+        run.require("a delta chain of length >= 2 was resolved", CHAIN_GE2.load(Ordering::Relaxed) > 0);
+    }
 }
